@@ -6,16 +6,6 @@ open QV QV.Front QV.Sem
 set_option linter.unusedSimpArgs false
 set_option linter.unusedVariables false
 
-/-- a statement at the top level of a function body: a statement of `okS`, an expression statement, or
-`return e` -/
-def okTop : SStmt → Bool
-  | .ret (some e) => plainE e
-  | .expr e => plainE e
-  | s => okS s
-
-/-- the source programs of the preservation theorem: user names for the arguments, `okTop` statements -/
-def okProg (p : SProg) : Bool := p.args.all (fun a => userName a.1) && p.body.all okTop
-
 theorem semBody_append_assigns (ret : Ty) (σ : SEnv) (A B : List Front.Stmt)
     (hA : ∀ x ∈ A, ∃ t e, x = Front.Stmt.assign t e) :
     semBody ret σ (A ++ B) = match runA σ A with
@@ -130,9 +120,6 @@ theorem knownOK_initSt (args : Args) (h : ∀ a ∈ args, userName a.1 = true) :
       exact userName_not_dunder (h a ha)
     · simp [lookup] at h1
   · simp [lookup] at hn
-
-/-- the arguments as the rewriter sees them: no tuple-typed argument -/
-def aargsOf (p : SProg) : Args := p.args.map fun a => (a.1, none)
 
 /-- **the rewriter preserves the source-level meaning** (programs of `okProg`): whenever the fixed-width
 meaning `Sem.semProg` of the rewritten, straight-line program is defined, it is the source-level meaning
